@@ -107,6 +107,22 @@ fn test(h: &History, obs: &mut Obs) -> CheckResult {
             let before = counts_before.get(id).copied().unwrap_or(0);
             vensure!(state.round_count(FlowId(*id)) == before + 1, "round-count-step", "round {k}: flow {id} round count went from {before} to {}", state.round_count(FlowId(*id)));
         }
+        // ... and is extended by the rounds attributed to it only: a flow the round did not go to
+        // records exactly what it recorded before
+        for (id, old) in &prev_flows {
+            if moved.contains(id) {
+                continue;
+            }
+            if let Some((_, new)) = flows.iter().find(|(i, _)| i == id) {
+                vensure!(
+                    new == old,
+                    "flow-changed-by-foreign-round",
+                    "round {k} was attributed to flow {moved:?}, yet flow {id} changed from [{}] to [{}]",
+                    old.iter().map(ToString::to_string).collect::<Vec<_>>().join(", "),
+                    new.iter().map(ToString::to_string).collect::<Vec<_>>().join(", ")
+                );
+            }
+        }
         let rid = state.round_flow_id().0;
         if was_full {
             vensure!(flows.len() == prev_flows.len(), "created-beyond-max", "round {k}: a flow was created although max-flows {} was reached", h.max_flows);
